@@ -197,4 +197,19 @@ PROPS = {
         "assumptions": ["oracle = cumulative B-spline (own Cox-de Boor basis) through matrix jets, evaluated at the exact long-double function of the same (t, t0, dt); "
                         "exactly on a knot, outputs of discontinuous order are accepted from either side", "verdict covers only the executions sampled"],
     },
+    "C12": {
+        "units": [{"name": "c12_a", "src": "harness/c12.cpp", "defs": ["-DTS=0"], "flavor": "asan", "shards": {"quick": 8, "thorough": 16}},
+                  {"name": "c12_b", "src": "harness/c12.cpp", "defs": ["-DTS=1"], "flavor": "asan", "shards": {"quick": 8, "thorough": 16}}],
+        "rule": "cases = random programs of 1..12 operations over a register file of <= 5 splines: constructors (velocity matrix / range, ConstantVelocity, "
+                "ConstantVelocityGoal, FixedCubic), +=, operator+, concat_global, crop (random, starting or ending on a knot, knot-to-knot, zero length, "
+                "out of range, starting in a later segment; localised or not), up to 8 segments; after every operation the result is evaluated at 0, "
+                "t_max, outside, 8 random times, every knot and knot +- 1 ulp against the executable model; degrees 1..5, groups SE3/SO3/SE2/SO2/R2; "
+                "distinct = distinct operation histories",
+        "floors": {"min_evaluations": {"quick": 50000, "thorough": 2000000},
+                   "cells": [r"SE3d\.K3\.value\|crop\.later_segment,global", r"SE2d\.K2\.vel\|crop\.on_knot,local", r"R2d\.K3\.arclength", r"SO3d\.K4\.value\|concat_global",
+                             r"SE3d\.K5\.value\|constructor", r"SE3d\.K3\.FixedCubic\.end_velocity", r"\.outside_zero_derivatives"]},
+        "assumptions": ["model = expression tree (Base | ConcatLocal | ConcatGlobal | Crop | Empty) evaluated by the specification in long double with the harness' own "
+                        "Bernstein basis; at junctions (within 1e-9 T) either one-sided limit is accepted for the value and derivatives are not judged",
+                        "verdict covers only the executions sampled"],
+    },
 }
